@@ -306,6 +306,123 @@ def run_iv(res, p, i, n):
     res.sample({"leg": "iv", "kind": "tx", "N": N, "edits": [[1, 2, "TG"]], "blocks": [[0, 3], [4, 6]], "strand": "-", "cds": [1, 4]})
 
 
+# ---- intervals cut by their own chunk, variants defined on ANOTHER (larger) chunk or on the chromosome ---------------
+def ivx_case(res, hap, kind, blocks, strand, fwin, api="collection", cds=False):
+    """The interval lives on the chunk window fwin that CUTS it (it only 'sees' its bases inside fwin: bases outside the
+    chunk carry no sequence); hap is a haplotype defined on a strictly larger chunk window, or on the chromosome
+    (hap.window None).  Oracle: the incorporated interval covers / spells the edit model applied to the reference bases
+    of the interval that lie on ITS OWN chunk, expressed in the coordinate system of the variants."""
+    fa, fb = fwin
+    a = hap.window[0] if hap.window else 0
+    visible = V.restrict(blocks, fa, fb)
+    exp = V.lifted(hap.ref, visible, strand, hap.edits, hap.window)
+    if exp is None:
+        res.extra["ivx_inadmissible"] += 1
+        return
+    case = dict(leg="iv", cross=True, kind=kind, N=hap.N, rot=hap.rot, edits=[list(e) for e in hap.edits],
+                blocks=[list(b) for b in blocks], strand=strand, fwin=list(fwin), window=list(hap.window) if hap.window else None,
+                api=api, cds=bool(cds))
+    fparent = lib.chunk_parent(hap.ref, fa, fb)
+    if kind == "tx" and cds:
+        obj = build_interval("tx", blocks, strand, fparent, cds=(0, sum(e - s for s, e in blocks)), f0=0)
+    else:
+        obj = build_interval(kind, blocks, strand, fparent)
+    before = meta(obj)
+    target = hap.single if api == "single" else hap.coll
+    o = lib.outcome(obj.incorporate_variants, target)
+    res.trans()
+    pairs = [(obj.chunk_relative_location, exp)]
+    res.nontriv(("ivx", kind, hap.edits, blocks, strand, fwin, hap.window, cds))
+    where = "chunk" if hap.window else "chrom"
+    if exp["empty"]:
+        if refused_deleted(o, exp):
+            res.note("ivx-" + kind, "deleted-refused")
+        else:
+            dev(res, hap, "incorporate_variants", case, "cross-deleted-not-refused", o[1] if o[0] == "exc" else repr(o[1]),
+                "EmptyLocationException", pairs)
+        return
+    want = expected_interval(exp, strand, a)
+    if o[0] != "ok":
+        if hap.window is None and o[1] == "NoSuchAncestorException":
+            # chunk-relative interval + variants defined on the whole chromosome: the lifted location is chromosome
+            # level and the library refuses to rebuild a chunk-relative interval from it (documented exception of
+            # from_chunk_relative_location). A refusal, not a wrong answer: accepted and counted.
+            res.note("ivx-" + kind, "chromosome-variants-refused")
+            return
+        dev(res, hap, "incorporate_variants", case, f"cross-{where}-raises-" + o[1], {"exc": o[1]}, want, pairs)
+        return
+    new = o[1]
+    got = lib.outcome(read_interval, new, a)
+    res.trans()
+    if got[0] != "ok" or got[1] != want:
+        dev(res, hap, "incorporate_variants", case, f"cross-{where}-location-or-sequence", got[1], want, pairs)
+        return
+    res.note("ivx-" + kind, f"{where}-{len(exp['blocks'])}-block" + ("-coding" if cds else ""))
+    res.state(("ivx", kind, exp["alt"], exp["blocks"], strand))
+    after = lib.outcome(meta, new)
+    if after[0] != "ok" or after[1] != before or type(new) is not type(obj):
+        dev(res, hap, "incorporate_variants", case, "cross-metadata", after[1], before, pairs)
+
+
+def cutting_windows(N, blocks):
+    """chunk windows that cut the interval: at least one of its bases inside and at least one outside"""
+    pos = [p for s, e in blocks for p in range(s, e)]
+    out = []
+    for fa in range(N):
+        for fb in range(fa + 1, N + 1):
+            n_in = sum(1 for p in pos if fa <= p < fb)
+            if 0 < n_in < len(pos):
+                out.append((fa, fb))
+    return out
+
+
+def run_ivx(res, p, i, n):
+    """cross-chunk world: every edit set with AT MOST ONE length-changing variant (the registered sequential-shift
+    finding cannot interfere) x every location x every chunk window cutting the location x variant parents: the
+    chromosome, and strictly larger chunk windows containing the variants ('menu': the whole-chromosome chunk [0,N) and
+    the window one base wider on each side; 'all': every strictly larger window)."""
+    N, rot = p["N"], p.get("rot", 0)
+    locs = list(W.locations(N, p["k"]))
+    idx = -1
+    for nv in p["nv"]:
+        for edits in W.edit_sets(N, nv):
+            if W.n_len_changing(edits) > 1:
+                continue
+            idx += 1
+            if idx % n != i:
+                continue
+            elo, ehi = edits[0][0], edits[-1][1]
+            haps = {}
+            for blocks, strand in locs:
+                for fwin in cutting_windows(N, blocks):
+                    if not V.admissible(V.restrict(blocks, *fwin), edits):
+                        res.extra["ivx_inadmissible"] += 1
+                        continue
+                    fa, fb = fwin
+                    if p["vwindows"] == "all":
+                        vwins = [w for w in W.windows_containing(N, min(fa, elo), max(fb, ehi)) if w != fwin]
+                    else:
+                        vwins = []
+                        for w in ((0, N), (max(min(fa, elo) - 1, 0), min(max(fb, ehi) + 1, N))):
+                            if w != fwin and w not in vwins:
+                                vwins.append(w)
+                    for vwin in [None] + vwins:
+                        if vwin not in haps:
+                            haps[vwin] = C.Hap(N, rot, edits, vwin)
+                        hap = haps[vwin]
+                        ivx_case(res, hap, "feat", blocks, strand, fwin)
+                        if vwin is None and p.get("chrom_kinds", "feat") == "feat":
+                            continue
+                        ivx_case(res, hap, "tx", blocks, strand, fwin)
+                        ivx_case(res, hap, "cds", blocks, strand, fwin)
+                        if hap.single is not None:
+                            ivx_case(res, hap, "feat", blocks, strand, fwin, api="single")
+                        else:
+                            ivx_case(res, hap, "tx", blocks, strand, fwin, cds=True)
+    res.sample({"leg": "iv", "cross": True, "kind": "feat", "N": N, "edits": [[2, 3, "TG"]], "blocks": [[0, 4]], "strand": "+",
+                "fwin": [1, 4], "window": [0, N]})
+
+
 # ---- aggregates ---------------------------------------------------------------------------------------------------
 def read_children(children, a):
     return [read_interval(c, a) for c in children]
@@ -486,7 +603,10 @@ def replay(res, case):
     edits = tuple((s, e, a) for s, e, a in case["edits"])
     window = tuple(case["window"]) if case.get("window") else None
     hap = C.Hap(case["N"], case["rot"], edits, window)
-    if case["leg"] == "iv":
+    if case["leg"] == "iv" and case.get("cross"):
+        ivx_case(res, hap, case["kind"], tuple(tuple(b) for b in case["blocks"]), case["strand"], tuple(case["fwin"]),
+                 api=case["api"], cds=case.get("cds", False))
+    elif case["leg"] == "iv":
         iv_case(res, hap, case["kind"], tuple(tuple(b) for b in case["blocks"]), case["strand"], case["api"],
                 cds=tuple(case["cds"]) if case.get("cds") else None, f0=case.get("f0", 0))
     else:
